@@ -70,7 +70,12 @@ func rangesText(rs []rang3.Range) string {
 	return s + "]"
 }
 
-func c15Flatten(a []rang3.Range) string {
+func c15Flatten(a []rang3.Range) (problem string) {
+	defer func() {
+		if x := recover(); x != nil {
+			problem = fmt.Sprint("Flatten panicked: ", x)
+		}
+	}()
 	want := toSet(a)
 	in := append([]rang3.Range(nil), a...)
 	var merges int
@@ -93,7 +98,12 @@ func c15Flatten(a []rang3.Range) string {
 	return ""
 }
 
-func c15Subtract(a, b []rang3.Range) string {
+func c15Subtract(a, b []rang3.Range) (problem string) {
+	defer func() {
+		if x := recover(); x != nil {
+			problem = fmt.Sprint("Subtract panicked: ", x)
+		}
+	}()
 	want := ivl.Diff(toSet(a), toSet(b))
 	got := rang3.Subtract(append([]rang3.Range(nil), a...), append([]rang3.Range(nil), b...))
 	if !ivl.Equal(toSet(got), want) {
@@ -398,6 +408,21 @@ func c15Worker(c *mc.Ctx) {
 				{K: lexref.RFrag, Rx: lexref.Rep(lexref.Cls(k), lexref.CPlus), Actions: []lexref.Action{{K: lexref.ADiscard}}},
 			}}}}
 			for _, v := range c02One(ws, "overlap", n, s, 1, &c.Stats, "C15", inDomain) {
+				c.Stats.Violate(v)
+			}
+		}
+	}
+	// range algebra: 3 (thorough: 4) rules, each one range over the points a..f
+	{
+		nr := 3
+		if !c.Quick() {
+			nr = 4
+		}
+		for i := int64(0); i < rangeAlgebraSize(nr); i++ {
+			if !c.Mine(i) {
+				continue
+			}
+			for _, v := range c02One(ws, fmt.Sprintf("range-algebra-%d", nr), i, rangeAlgebraSpec(i, nr), 1, &c.Stats, "C15", inDomain) {
 				c.Stats.Violate(v)
 			}
 		}
